@@ -142,8 +142,8 @@ CHECKS = [
         "Deductive proof of FormulaEvaluator.apply (initial synchronisation inlined) against scripted input streams with arbitrary first "
         "timestamps: the steps read exactly the samples stamped with the emitted timestamp; the first run lands on the latest first "
         "timestamp without reading beyond it; afterwards timestamps advance by one step, none skipped or repeated (class invariant "
-        "'aligned'). FormulaEngine3Phase._run never mixes timestamps when its phase streams start aligned; the unaligned start is a "
-        "recorded known finding with a native witness. "
+        "'aligned'). FormulaEngine3Phase._run never mixes timestamps, whatever the first timestamps of its phase streams (outer loop "
+        "invariant + invariant of the alignment loop); the unaligned start was a genuine defect, repaired (fix: commit in /repo). "
         "A bounded native explorer on the real objects runs alongside as a second, structure-independent line of detection (labelled bounded in the evidence; not part of the proof, never counted in obligations/discharged).",
         "stream/channel model assumed (per-stream in-order delivery of first + k*step; interleavings irrelevant under it); two input "
         "streams (structural bound); FormulaEngine._run not under contract",
